@@ -732,6 +732,40 @@ def for_to_while(text: str, anchor: str, itname: str, report: DropReport, item: 
     return fr.apply()
 
 
+def assert_to_reject(text: str, repl: str, report: DropReport, item: str) -> str:
+    """W9c: in a function that REJECTS by panicking, `assert!(COND, message..)` is `if !(COND) { panic!(message..) }`:
+    it becomes `if !(COND) { REPL; }` with REPL the diverging stand-in of W9b (the rejection must be justified)."""
+    fr = R.Frag(text)
+    ct = fr.ct
+    cnt = 0
+    i = 0
+    while i < len(ct) - 2:
+        if ct[i].kind == "ident" and ct[i].text == "assert" and ct[i + 1].text == "!" and ct[i + 2].text in R.OPEN:
+            e = R.match_close(ct, i + 2)
+            k = i + 3
+            end_cond = e - 1
+            while k < e:
+                if ct[k].text in R.OPEN:
+                    k = R.match_close(ct, k) + 1
+                    continue
+                if ct[k].text == ",":
+                    end_cond = k - 1
+                    break
+                k += 1
+            cond = text[ct[i + 3].start:ct[end_cond].end]
+            # swallow the `;` that follows the macro call
+            stop = ct[e + 1].end if e + 1 < len(ct) and ct[e + 1].text == ";" else ct[e].end
+            fr.replace(ct[i].start, stop, f"if !({cond}) {{ {repl}; }}")
+            cnt += 1
+            i = e + 1
+            continue
+        i += 1
+    if cnt:
+        report.add("W9c", item, f"`assert!(COND, ..)` -> `if !(COND) {{ {repl}; }}`", cnt)
+        return fr.apply()
+    return text
+
+
 def w9_panic_args(text: str, report: DropReport, item: str) -> str:
     """W9: `panic!(..)`/`unreachable!(..)` are KEPT (vstd gives them `requires false`, so each must be
     proved unreachable); only their message arguments are dropped."""
@@ -1235,6 +1269,8 @@ class Unit:
                 # W9b: in functions that reject by panicking (HttpRouter::insert), each `panic!(msg..)` becomes a call
                 # of a diverging stand-in whose precondition demands a justification for the rejection
                 text = strip_macro_calls(text, ["panic"], icfg["panic_to"], self.report, itemname, "W9b")
+                if icfg.get("assert_to_reject"):
+                    text = assert_to_reject(text, icfg["panic_to"], self.report, itemname)
             text = w9_panic_args(text, self.report, itemname)
             if icfg.get("desugar_try"):
                 text = desugar_try(text, self.report, itemname, icfg.get("try_keep"))
